@@ -32,7 +32,7 @@ REQUIRED = ["calls.finite.is_finite", "calls.PolyPerms.is_polynomial", "calls.In
             "calls.InsertionEncodablePerms.is_insertion_encodable_rightmost", "calls.InsertionEncodablePerms.is_insertion_encodable_maximum",
             "calls.Av.is_finite", "calls.Av.is_polynomial", "calls.Av.is_insertion_encodable", "containers.checked", "oneshot.checked",
             "symmetry.checked", "enumeration.finite_confirmed", "enumeration.nonpoly_fib_checked", "enumeration.poly_confirmed",
-            "av_history.sequences", "long.member_bases", "memo.poly_entries_checked", "memo.insenc_entries_checked", "cli.checked", "verdict.polynomial_true", "verdict.insenc_true", "verdict.finite_true"]
+            "av_history.sequences", "long.member_bases", "nine_of_ten.bases", "verylong.member_bases", "memo.poly_entries_checked", "memo.insenc_entries_checked", "cli.checked", "verdict.polynomial_true", "verdict.insenc_true", "verdict.finite_true"]
 MIN_NONTRIVIAL = 300
 CTX = None
 MON = None
@@ -300,6 +300,48 @@ def single_witness_bases(rng, count):
     return out
 
 
+def nine_of_ten_bases(rng):
+    """for each of the ten classes: a basis that meets the other nine through elements lying OUTSIDE the class that is left
+    out (so exactly one of the ten conditions of the polynomial-growth theorem fails)"""
+    pool = [p for n in range(2, 6) for p in itertools.permutations(range(n))]
+    out = []
+    for c, left_out in enumerate(K.TEN):
+        basis = []
+        for d, cls in enumerate(K.TEN):
+            if d == c:
+                continue
+            cands = [p for p in pool if K.in_class(p, cls) and not K.in_class(p, left_out)]
+            if not cands:
+                basis = None
+                break
+            basis.append(list(rng.choice(cands)))
+        if basis:
+            out.append([list(b) for b in {tuple(b) for b in basis}])
+    return out
+
+
+def chk_verylong(ctx, seed):
+    """members of the ten classes with several hundred points (and near members), each as the only possible witness of its
+    class next to short witnesses of the others"""
+    import random
+
+    rng = random.Random(seed)
+    short = {0: (0, 1, 2), 3: (2, 1, 0)}
+    for which in rng.sample(range(10), 4):
+        n = rng.randint(501, 640)
+        m = long_member(rng, which, n)
+        near = list(m)
+        i = rng.randrange(n - 3)
+        near[i], near[i + 2] = near[i + 2], near[i]
+        others = [list(rng.choice([p for p in itertools.permutations(range(3)) if K.in_class(p, cls)])) for d, cls in enumerate(K.TEN) if d != which]
+        others = [list(b) for b in {tuple(b) for b in others} if not K.in_class(tuple(b), K.TEN[which])]
+        chk_basis(ctx, [list(m)], full=False)
+        chk_basis(ctx, [list(m)] + others, full=False)
+        chk_basis(ctx, [near] + others, full=False)
+        chk_basis(ctx, [list(K.C.inv(m))] + others, full=False)
+        ctx.count("verylong.member_bases")
+
+
 def long_member(rng, which, n):
     """a random permutation of length n in one of the ten classes, built from the class's description"""
     if which < 8:
@@ -344,6 +386,7 @@ def chk_long(ctx, seed):
 
 
 CHECKS["long"] = chk_long
+CHECKS["verylong"] = chk_verylong
 
 
 def plan(tier, seed):
@@ -377,6 +420,10 @@ def run(ctx, spec):
                 chk_enumeration(ctx, basis)
         for _ in range(max(3, spec["count"] // 25)):
             chk_long(ctx, rng.randrange(10 ** 9))
+        for basis in nine_of_ten_bases(rng):
+            chk_basis(ctx, basis, full=rng.random() < 0.3)
+            ctx.count("nine_of_ten.bases")
+        chk_verylong(ctx, rng.randrange(10 ** 9))
         for _ in range(spec["enum"]):
             basis = [rng.sample(range(k), k) for k in (rng.choice([2, 3, 3, 4, 4]) for _ in range(rng.randint(1, 4)))]
             chk_enumeration(ctx, basis)
